@@ -10,7 +10,7 @@ class C03(PropCheck):
     case_type = 'Denote.case'
     preds = (('Denote.agree', 'agree'), ('Denote.ok', 'ok'), ('Denote.ok_strict', 'ok'))
     chunk = 120
-    rule = ('random DAGs (2-9 nodes) built through elfi.Constant/Operation/Prior/Simulator/Summary/Discrepancy with recording '
+    rule = ('random DAGs (2-9 nodes; a quarter ABC-shaped prior->simulator->summary->discrepancy chains, some with a plain Operation spliced in, which must be rejected) built through elfi.Constant/Operation/Prior/Simulator/Summary/Discrepancy with recording '
             'operations, mixed positional and named edges, partial observations, uses_meta flags; random requested outputs '
             '(incl. None = all, twin names) and with_values subsets; malformed stream: cycles, both _output and _operation, twin '
             'name clash, observed data depending on a stochastic node; non-trivial = run succeeded with >= 2 operation calls or '
@@ -22,10 +22,16 @@ class C03(PropCheck):
         n = 260 if self.tier == 'quick' else 4000
         r = self.rng
         for i in range(n):
-            spec = gen_spec(r)
-            names = [s['name'] for s in spec]
+            abc = r.random() < 0.25
             mal = None
-            if r.random() < 0.18:
+            if abc:
+                spec, spliced = gen_abc_spec(r)
+                if spliced:
+                    mal = 'spliced_op'
+            else:
+                spec = gen_spec(r)
+            names = [s['name'] for s in spec]
+            if not abc and r.random() < 0.18:
                 mal = r.choice(['cycle', 'both', 'clash', 'stoch_obs', 'stoch_twin'])
             outs_mode = r.choice(['all', 'some', 'some', 'one', 'twin'])
             if outs_mode == 'all':
@@ -45,6 +51,7 @@ class C03(PropCheck):
                 for nm in r.sample(cands, min(len(cands), r.randint(1, 3))):
                     wv[nm] = 5000 + names.index(nm)
             self.bump('outputs=' + outs_mode)
+            self.bump('shape=%s' % ('abc' if abc else 'random'))
             self.bump('malformed=%s' % mal)
             self.bump('with_values=%d' % len(wv))
             yield dict(spec=spec, outputs=outputs, with_values=wv, malformed=mal, seed=r.randrange(2 ** 31),
